@@ -488,6 +488,16 @@ M("r10-loop-scan-skips-by-symbol", ["C10", "C12"], "break",
   "set_loop_p/skip-own-position")
 M("r13-tie-relinks-to-original-list", ["C04"], "break",
   [("yaep.c", "	      alt->val.alt.next = result;\n	      result = alt;", "	      alt->val.alt.next = node;\n	      result = alt;")], "prune_to_minimal/alt.next")
+M("c03-nil-into-parent-node-at-own-index", ["C02", "C03"], "break",
+  [("yaep.c", "		  place_translation (anode == NULL\n				     ? parent_anode->val.anode.children\n				     + parent_disp\n				     : anode->val.anode.children + disp,\n				     empty_node);",
+    "		  place_translation (anode == NULL\n				     ? parent_anode->val.anode.children\n				     + disp\n				     : anode->val.anode.children + disp,\n				     empty_node);")],
+  "make_parse/slot")
+M("r25-cxx-table-released-unconditionally", ["C16", "C14"], "break",
+  [("yaep.c", "  if (!grammar->one_parse_p)\n#ifndef __cplusplus\n    delete_hash_table (parse_state_tab);\n#else\n    delete parse_state_tab;\n#endif", "#ifndef __cplusplus\n  if (!grammar->one_parse_p)\n    delete_hash_table (parse_state_tab);\n#else\n    delete parse_state_tab;\n#endif")],
+  "[c++] parse_state_fin/release-parse_state_tab")
+M("r25-c-table-released-unconditionally", ["C14"], "break",
+  [("yaep.c", "  if (!grammar->one_parse_p)\n#ifndef __cplusplus\n    delete_hash_table (parse_state_tab);\n#else\n    delete parse_state_tab;\n#endif", "#ifndef __cplusplus\n    delete_hash_table (parse_state_tab);\n#else\n  if (!grammar->one_parse_p)\n    delete parse_state_tab;\n#endif")],
+  "parse_state_fin/release-parse_state_tab")
 
 # ---- R8 / R2f (C16, C19) ----------------------------------------------------------------------------
 M("r8-revert-F14", ["C19", "C16"], "break", [("hashtab.cpp", "		  entry_ptr = first_deleted_entry_ptr;\n		  *entry_ptr = EMPTY_ENTRY;", "		  entry_ptr = first_deleted_entry_ptr;\n		  *entry_ptr = DELETED_ENTRY;")], "find_hash_table_entry~")
